@@ -865,6 +865,18 @@ def main(tier, replay):
         kern_ok, kern_n, kern_log = run_kernel_sample(rows, 1000 if wide else 60)
         common.info("C15: [%.0fs] in-kernel sample (%d cases) %s" % (T.s(), kern_n, "ok" if kern_ok else "FAILED"))
 
+    # thorough: the independent checker over Props/C15.vo and everything it depends on
+    chk = None
+    if wide and proofs_ok:
+        with common.Lock("coq"):
+            rc, out = common.run(["coqchk", "-silent", "-o", "-Q", ".", "Nexus", "Nexus.Props.C15"], cwd=common.COQ, timeout=1500)
+        summary = out[out.find("CONTEXT SUMMARY"):] if "CONTEXT SUMMARY" in out else out[-800:]
+        chk = {"rc": rc, "summary": " ".join(summary.split())[:600]}
+        common.info("C15: [%.0fs] coqchk rc=%d" % (T.s(), rc))
+        if rc != 0 or "Axioms: <none>" not in chk["summary"]:
+            v.violation({"property": PID, "repo": common.REPO, "obligation": "coqchk over Props/C15.vo", "failed": out[-2000:]},
+                        tag="coqchk", no_input=True)
+
     # the interleaving monitor speaks about the observed order directly
     for x in rows:
         if x["case"].kind == "ping_hold" and not x["bad_monitor"] and not ping_monitor_ok(x):
@@ -926,7 +938,7 @@ def main(tier, replay):
             v.violation({"property": PID, "repo": common.REPO, "obligation": "proof obligations",
                          "undischarged": undischarged[:40], "failed": r["failed"][-3000:]}, tag="obligation", no_input=True)
 
-    _evidence(tier, T, r, v, rows, scen, gen_ok, seen, searched, kern_n if kern_ok else -kern_n)
+    _evidence(tier, T, r, v, rows, scen, gen_ok, seen, searched, kern_n if kern_ok else -kern_n, chk)
     for l in ("C15: %d obligations, %d discharged; %d cases, %d monitor rejections, %d tie breaks; scenarios equal: %s; %.1fs"
               % (len(r["obligations"]), len(r["discharged"]), len(rows), len(bad_rows), len(tie_rows), scen_ok, T.s()),):
         common.info(l)
@@ -959,7 +971,7 @@ def _accounted(undischarged, r, seen):
     return not undischarged and r["ok"]
 
 
-def _evidence(tier, T, r, v, rows, scen, gen_ok, seen, searched, kern_n=0):
+def _evidence(tier, T, r, v, rows, scen, gen_ok, seen, searched, kern_n=0, chk=None):
     by_kind = {}
     distinct = set()
     for x in rows:
@@ -1008,6 +1020,7 @@ def _evidence(tier, T, r, v, rows, scen, gen_ok, seen, searched, kern_n=0):
         "known_findings_reported": v.known,
         "wide_search_run": searched,
         "cases_rechecked_in_kernel_by_vm_compute": kern_n,
+        "coqchk": chk if chk is not None else "thorough tier only",
         "tier_limits": "quick: limits up to 2^16 with all serializers + 2^24 with msgpack; thorough: all 16 limits",
     }
     common.write_evidence(PID, tier, "proof", cov, T.s(), v.violations,
